@@ -36,7 +36,131 @@ fn p_word(s: &str) -> Result<Word, String> {
     Ok(d as Word)
 }
 
+
+// ---------------------------------------------------------------- num-modular primitives, called directly
+macro_rules! nm_impl {
+    ($name:ident, $T:ty, $D:ty) => {
+        fn $name(op: &str, v: &[u128]) -> Option<Res> {
+            use num_modular::{Normalized2by1Divisor as N1, Normalized3by2Divisor as N2};
+            let g = |i: usize| -> Result<u128, String> {
+                v.get(i).copied().ok_or_else(|| format!("bad-arg missing {}", i))
+            };
+            Some((|| -> Res {
+                Ok(match op {
+                    "inv1" => format!("{:x}", N1::<$T>::invert_word(g(0)? as $T)),
+                    "inv2" => format!("{:x}", N2::<$T, $D>::invert_double_word(g(0)? as $D)),
+                    "div1by1" => {
+                        let (q, r) = N1::<$T>::new(g(0)? as $T).div_rem_1by1(g(1)? as $T);
+                        format!("{:x} {:x}", q, r)
+                    }
+                    "div2by1" => {
+                        let (q, r) = N1::<$T>::new(g(0)? as $T).div_rem_2by1(g(1)? as $D);
+                        format!("{:x} {:x}", q, r)
+                    }
+                    "div2by2" => {
+                        let (q, r) = N2::<$T, $D>::new(g(0)? as $D).div_rem_2by2(g(1)? as $D);
+                        format!("{:x} {:x}", q, r)
+                    }
+                    "div3by2" => {
+                        let (q, r) = N2::<$T, $D>::new(g(0)? as $D).div_rem_3by2(g(1)? as $T, g(2)? as $D);
+                        format!("{:x} {:x}", q, r)
+                    }
+                    "div4by2" => {
+                        let (q, r) = N2::<$T, $D>::new(g(0)? as $D).div_rem_4by2(g(1)? as $D, g(2)? as $D);
+                        format!("{:x} {:x}", q, r)
+                    }
+                    _ => return Err("__none__".into()),
+                })
+            })())
+        }
+    };
+}
+nm_impl!(nm8, u8, u16);
+nm_impl!(nm16, u16, u32);
+nm_impl!(nm32, u32, u64);
+nm_impl!(nm64, u64, u128);
+
+const CK_MOD: u128 = (1u128 << 61) - 1;
+fn ck(h: u128, q: u128, r: u128) -> u128 {
+    ((h * 31 + q) % CK_MOD * 31 + r) % CK_MOD
+}
+
+/// exhaustive sweeps over the 8-bit instance of the crate (checksums of all results)
+fn nm_sweep8(op: &str, v: &[u128]) -> Option<Res> {
+    use num_modular::{Normalized2by1Divisor as N1, Normalized3by2Divisor as N2};
+    Some((|| -> Res {
+        Ok(match op {
+            // all a = a_hi*256 + a_lo with a_hi < d, for one divisor d
+            "sweep2by1" => {
+                let d = v[0] as u8;
+                let dv = N1::<u8>::new(d);
+                let mut h = 0u128;
+                for a in 0..((d as u32) << 8) {
+                    let (q, r) = dv.div_rem_2by1(a as u16);
+                    h = ck(h, q as u128, r as u128);
+                }
+                format!("{:x}", h)
+            }
+            // reciprocals of all normalized double words in [lo, lo + cnt)
+            "sweepinv2" => {
+                let (lo, cnt) = (v[0] as u32, v[1] as u32);
+                let mut h = 0u128;
+                for d in lo..lo + cnt {
+                    h = ck(h, N2::<u8, u16>::invert_double_word(d as u16) as u128, 0);
+                }
+                format!("{:x}", h)
+            }
+            // all a_lo for one divisor d and one a_hi < d
+            "sweep3by2" => {
+                let (d, ahi) = (v[0] as u16, v[1] as u16);
+                let dv = N2::<u8, u16>::new(d);
+                let mut h = 0u128;
+                for alo in 0..256u32 {
+                    let (q, r) = dv.div_rem_3by2(alo as u8, ahi);
+                    h = ck(h, q as u128, r as u128);
+                }
+                format!("{:x}", h)
+            }
+            _ => return Err("__none__".into()),
+        })
+    })())
+}
+
+fn nm_dispatch(op: &str, args: &[&str]) -> Option<Res> {
+    let sub = op.strip_prefix("nm.")?;
+    let parse = || -> Result<(usize, Vec<u128>), String> {
+        let w = p_usize(arg(args, 0)?)?;
+        let mut v = Vec::new();
+        for a in &args[1..] {
+            v.push(p_dword(a)? as u128);
+        }
+        Ok((w, v))
+    };
+    let (w, v) = match parse() {
+        Ok(x) => x,
+        Err(e) => return Some(Err(e)),
+    };
+    let r = if sub.starts_with("sweep") {
+        nm_sweep8(sub, &v)
+    } else {
+        match w {
+            8 => nm8(sub, &v),
+            16 => nm16(sub, &v),
+            32 => nm32(sub, &v),
+            64 => nm64(sub, &v),
+            _ => None,
+        }
+    };
+    match r {
+        Some(Err(e)) if e == "__none__" => None,
+        other => other,
+    }
+}
+
 pub fn dispatch(op: &str, args: &[&str]) -> Option<Res> {
+    if op.starts_with("nm.") {
+        return nm_dispatch(op, args);
+    }
     Some((|| -> Res {
         match op {
             "i.ismultiple" => {
